@@ -319,10 +319,48 @@ def xray_tie(ctx, model, cfg, A, res):
 # streams
 
 
-def classify_known(ctx, model, cfg, A, res):
+KNOWN_DERIVED = "linop-derived-adj-dtypes"
+KNOWN_CONVOLVE = "convolve-derived-adj"
+KNOWN_CIRC_REAL = "circconv-adj-real-input"
+KNOWN_XRAY_DT = "xray2d-backproject-dtype"
+DTYPE_TAGS = {"adj-accepts", "adj-accepts-out", "eval-dtype", "eval-clinear", "adj-clinear"}
+
+
+def _has_circ_complex_on_real(cfg):
+    if isinstance(cfg, dict):
+        if cfg.get("cls") == "CircularConvolve" and G.cplx(cfg["hdt"]) and not G.cplx(cfg["idt"]):
+            return True
+        return any(_has_circ_complex_on_real(v) for v in cfg.values())
+    if isinstance(cfg, list):
+        return any(_has_circ_complex_on_real(v) for v in cfg)
+    return False
+
+
+def classify_known(ctx, model, cfg, A, res, view=None):
+    """slug of the known finding a failed obligation is an instance of (structural predicate on the configuration
+    AND on the kind of failure), or None"""
     tags = {t for t, _ in res["fails"]}
     if cfg["cls"] == "AbelTransform" and tags == {"adjoint"} and int(G._t(cfg["ishape"])[1]) % 2 == 1:
         return KNOWN_ABEL
+    if cfg["cls"] == "Derived":
+        form = cfg["form"]
+        with warnings.catch_warnings():
+            warnings.simplefilter("ignore")
+            a = G.build(cfg["a"])
+            b = G.build(cfg["b"]) if "b" in cfg else None
+        conv = lambda o: type(o).__name__ in ("Convolve", "ConvolveByX")
+        c = cfg.get("c")
+        if form in ("smul", "rsmul", "sdiv") and isinstance(c, (list, tuple)) and c[1] != 0 and not D.is_complex(a.input_dtype) \
+                and tags <= DTYPE_TAGS | {"adjoint"}:
+            return KNOWN_CONVOLVE if conv(a) else KNOWN_DERIVED
+        if form in ("add", "sub") and tags <= DTYPE_TAGS | {"adjoint"} and (
+            np.dtype(a.input_dtype) != np.dtype(b.input_dtype) or np.dtype(a.output_dtype) != np.dtype(b.output_dtype)
+        ):
+            return KNOWN_CONVOLVE if (conv(a) and conv(b)) else KNOWN_DERIVED
+    if _has_circ_complex_on_real(cfg) and (cfg["cls"] == "Derived" or view in ("T", "H", "gram")) and tags <= DTYPE_TAGS:
+        return KNOWN_CIRC_REAL
+    if "XRayTransform2D" in json.dumps(cfg) and (cfg["cls"] == "Derived" or view in ("T", "H", "gram")) and tags == {"adj-accepts-out"}:
+        return KNOWN_XRAY_DT
     return None
 
 
@@ -392,8 +430,9 @@ def check_views(ctx, cfg, A, res, rng):
                 fails.append((f"{name}-matrix", f"max diff {float(np.max(np.abs(rB['M'] - specs[name]))):.3e}"))
         if fails:
             ctx.count("view-failed:" + name)
+            known = classify_known(ctx, None, cfg, A, {"fails": fails}, view=name)
             ctx.disagree(f"adjoint.view_{name}", {"cfg": cfg, "view": name}, {"fails": _js(fails), "meta": _js(rB["meta"])},
-                         {"T": "M^T", "H": "M^H", "conj": "conj(M)", "gram": "M^H M"}[name], oracle=view_oracle(name))
+                         {"T": "M^T", "H": "M^H", "conj": "conj(M)", "gram": "M^H M"}[name], oracle=view_oracle(name), known_id=known)
 
 
 def view_oracle(name):
@@ -704,11 +743,17 @@ def findings(ctx, model):
         KNOWN_XRAY3: {"cls": "XRayTransform3D", "ishape": [2, 2, 2], "det": [2, 2], "angles": [0.0], "seq": "Z", "shift": [1.25, -0.75]},
         KNOWN_ABEL: {"cls": "AbelTransform", "ishape": [3, 3]},
     }
+    circ_c_r = {"cls": "CircularConvolve", "hshape": [2], "ishape": [3], "ndims": 1, "hdt": G.C128, "idt": G.R64}
+    fdc = {"cls": "SingleAxisFiniteDifference", "ishape": [3], "axis": -1, "prepend": None, "append": None, "circular": True, "dt": G.R64}
+    wit[KNOWN_DERIVED] = {"cls": "Derived", "form": "smul", "c": [0.0, 1.0], "a": G._seeded(dict(fdc))}
+    wit[KNOWN_CONVOLVE] = {"cls": "Derived", "form": "smul", "c": [0.0, 1.0], "a": G._seeded({"cls": "Convolve", "hshape": [2], "ishape": [3], "mode": "same", "hdt": G.R64, "idt": G.R64})}
+    wit[KNOWN_CIRC_REAL] = {"cls": "Derived", "form": "H", "a": G._seeded(dict(circ_c_r))}
+    wit[KNOWN_XRAY_DT] = {"cls": "Derived", "form": "H", "a": G._seeded({"cls": "XRayTransform2D", "ishape": [3, 3], "angles": [0.3, 1.1]})}
     for fid, cfg in wit.items():
         if not ctx.is_known(fid):
             continue
         A, res, cerr = build_and_check(G._seeded(dict(cfg)), rng)
-        still = cerr is None and any(t == "adjoint" for t, _ in res["fails"])
+        still = cerr is None and not res["ok"]
         ctx.known_finding(fid, still, detail="" if not still else res["fails"][0][1])
 
 
